@@ -863,6 +863,16 @@ class Fn:
             ty_ = self.spec["empty_lists"][st.targets[0].id]
             elt_ = ty_[len("list "):]
             return self.bind(st.targets[0].id, "(@nil %s)" % (elt_ if " " not in elt_ else "(%s)" % elt_), ty_, rest)
+        if isinstance(st, ast.Assign) and len(st.targets) == 1 and isinstance(st.targets[0], ast.Attribute) \
+                and isinstance(st.targets[0].value, ast.Name) and st.targets[0].value.id in self.env \
+                and st.targets[0].attr in self.spec.get("setters", {}):
+            # x.attr = E on a local x through a declared setter: x becomes (setter x E)
+            setter, want = self.spec["setters"][st.targets[0].attr]
+            name = st.targets[0].value.id
+            v, tv = self.expr(st.value)
+            if tv != want:
+                raise Unsupported("%s.%s = a %s" % (name, st.targets[0].attr, tv))
+            return self.bind(name, "(%s %s %s)" % (setter, self.env[name][0], v), self.env[name][1], rest)
         if isinstance(st, ast.Assign) and len(st.targets) == 1:
             pat = dotted(st.targets[0])
             v, tv = self.expr(st.value)
@@ -1311,6 +1321,12 @@ SPECS = [
          eff_calls={"process_variable": dict(fn="(fun (_ : unit) v_ => process v_ {<collector>})", args=["unit", "V"], ret="(R * bool)", updates=["<collector>"])},
          stmt_calls={"node.parent.add_child": dict(fn="(fun r_ => attach_to_parent node r_ {<collector>})", updates=["<collector>"], args=["R"]),
                      "node.add_children": dict(fn="add_children {node.children} (depth_of node)", updates=["node.children"], args=["list N"])}),
+    # ---- Node.add_children: every new child is one level below its parent, kept in order after the children already there (C05)
+    dict(group="Collect", name="gen_add_children", path="processor/bfs/__init__.py", cls="Node", func="add_children",
+         params="{N : Type} (set_depth : N -> Z -> N) (depth : Z) (existing : list N) (children : list N)", ret="list N",
+         args=["self", "children"], falls_off=True, state_loops=True, setters={"_depth": ("set_depth", "Z")},
+         env={"children": ("children", "list N"), "self._depth": ("depth", "Z")},
+         state={"self._children": ("existing", "list N")}, state_names={"self._children": "existing"}),
     # ---- one variable: identity first, then a new id and a table entry (C07; the consumer's callee in the traversal, C05)
     dict(group="Collect", name="gen_process_variable", path="processor/variable_processor.py", cls=None, func="process_variable",
          params="{V O T M R X C TB : Type} (name_of : V -> str) (orig_of : V -> option str) (obj_of : V -> O) (identity_of : O -> nat) "
